@@ -86,6 +86,8 @@ def map_failures(res, gen, unitcfg):
     if not hasattr(gen, '_ghost'): gen._ghost = ghost_lines(gen.text)
     for d in res['diags']:
         status, kind = vrun.classify(d['message'])
+        if d.get('rustc_code'):
+            status, kind = 'undecided', 'front-end'
         if status == 'unknown':
             # verification ran to completion (there are results), so an error diagnostic with a span is a
             # failed obligation whose wording is not in the table; without results it is a front-end error
@@ -278,7 +280,10 @@ def run_unit(prop, unit, pcfg, cache, usize=8, seed=None, want_canary=True, forc
         raise Undecided('Verus rejected unit %s before/while verifying (unsupported construct or type error): %s\n%s' % (unit, fe[0]['message'], fe[0]['rendered']))
     exp_in, failed_canaries = set(), set()
     if want_canary:
-        cf, cu = map_failures(cres, genc, unitcfg) if cres['have_results'] else ([], [])
+        if not cres['have_results']:
+            msg = cres['diags'][0]['rendered'] if cres['diags'] else cres.get('raw_err_tail', '')
+            raise Undecided('the vacuity (canary) pass of unit %s produced no verification result:\n%s' % (unit, msg[:1500]))
+        cf, cu = map_failures(cres, genc, unitcfg)
         midx = module_index(genc.text)
         for m in re.finditer(r'/\*#(CANARY:[^*]+)\*/', genc.text):
             line = genc.text.count('\n', 0, m.start()) + 1
